@@ -153,7 +153,7 @@ func optFieldType(o *OptNode) reflect.Type {
 	case "sliceptr":
 		return reflect.SliceOf(reflect.PtrTo(et))
 	case "map":
-		return reflect.MapOf(typeByName["string"], et)
+		return reflect.MapOf(typeByName[ktypeOf(o)], et)
 	case "ptr":
 		return reflect.PtrTo(et)
 	case "func0":
@@ -407,7 +407,9 @@ func setText(f reflect.Value, t string, base int) {
 		}
 		e := reflect.New(f.Type().Elem()).Elem()
 		setText(e, v, base)
-		f.SetMapIndex(reflect.ValueOf(k), e)
+		ke := reflect.New(f.Type().Key()).Elem()
+		setText(ke, k, base)
+		f.SetMapIndex(ke, e)
 	case reflect.Ptr:
 		f.Set(reflect.New(f.Type().Elem()))
 		setText(f.Elem(), t, base)
